@@ -236,7 +236,7 @@ func (r *Run) afterCloseQuiet(f *fsession, cs string, wait time.Duration) {
 func runC14(r *Run) {
 	installHooks()
 	hub.reset()
-	r.st.Rule = "Close injected at the states the property names — idle, k requests in flight, dispatcher busy in a handler with frames queued, reader holding an undelivered frame (tcp.before-add gate), a caller about to enqueue (conn.write.before-enqueue gate), two closers of one connection (reader inside Close when the user closes), writer blocked in the socket write (stalled peer), recovery between its closed test and the dial (logger held), recovery backing off between failed attempts, recovery authenticating (peer silent; answer already queued behind a blocked handler), give-up about to fire / already fired — on TCP and WebSocket; oracles: Close returns within 1 s, exactly one close callback, no connection, frame or after-reconnect callback afterwards, no goroutine of the library left, no panic; the forced lifecycle actions are replayed by Model/Life.v and the final observables (callbacks, connections, open sockets, goroutines) compared. distinct = distinct request lines"
+	r.st.Rule = "Close injected at the states the property names — idle, k requests in flight, dispatcher busy in a handler with frames queued, reader holding an undelivered frame (tcp.before-add gate), a caller about to enqueue (conn.write.before-enqueue gate), two closers of one connection (reader inside Close when the user closes), writer blocked in the socket write (stalled peer), recovery between its closed test and the dial (logger held), right after a loss with a 3 s call in flight, recovery backing off between failed attempts, recovery authenticating (peer silent; answer already queued behind a blocked handler), give-up about to fire / already fired — on TCP and WebSocket; oracles: Close returns within 1 s, exactly one close callback, no connection, frame or after-reconnect callback afterwards, no goroutine of the library left, no panic; the forced lifecycle actions are replayed by Model/Life.v and the final observables (callbacks, connections, open sockets, goroutines) compared. distinct = distinct request lines"
 	for _, trans := range []string{"tcp", "ws"} {
 		ws := trans == "ws"
 		// idle
@@ -437,6 +437,26 @@ func runC14(r *Run) {
 			}
 			r.st.Evaluations++
 			r.count("c14.close-before-dial-window." + trans)
+			f.close()
+		}
+	}
+	// Close right after a loss while a call with a long request timeout is in flight
+	for _, trans := range []string{"tcp", "ws"} {
+		if f, err := openF(trans); err == nil {
+			ch := f.tc.doAsync(35, nil, 3*time.Second)
+			f.lk.nextRequest(time.Second)
+			f.lk.drop()
+			time.Sleep(100 * time.Millisecond)
+			d, p := closeTimed(f.tc)
+			if p == "HANG" || d > time.Second {
+				r.violate(Violation{What: fmt.Sprintf("Close did not return promptly (%v): it waited for the call in flight", d.Round(100*time.Millisecond)),
+					Case: trans + ": a call with RequestTimeout 3 s in flight, the peer drops the connection, Close 100 ms later", Sig: "c14-close-waits-for-call-in-flight"})
+			} else if p != "" {
+				r.violate(Violation{What: "Close panicked: " + p, Case: trans + " call in flight, drop, Close"})
+			}
+			awaitDo(ch, 4*time.Second)
+			r.st.Evaluations++
+			r.count("c14.close-after-loss-with-call-in-flight." + trans)
 			f.close()
 		}
 	}
